@@ -18,7 +18,7 @@ func init() {
 		Patterns: []string{"./ring", "./loser"},
 		Run:      runC14,
 		Explanation: "Decides two structural clauses of 'reported token ranges coincide with key ownership and tile the key space' in every function returning ring.TokenRanges: (R1) no in-band sentinel: an unsigned local that is assigned both a constant K and a data value must not be compared with K to mean 'no value yet' (K is a legitimate token/range bound); " +
-			"(R2) a pending range end is always closed: on every path (loops unrolled once, flags tracked path-sensitively) from a statement that records a pending bound together with its boolean flag to a successful return, the bound is consumed by an append/addRange. (R3) the k-way merge of token lists never lets an ended sequence beat a live one that holds the end marker 2^32-1 as a real token; (R4) every non-constant +/- on a 32-bit key or token in the lookup and range code is one of the reviewed sites (function + canonical expression, one reason each) and the guarded ones keep their guard — key arithmetic wraps silently exactly at the boundary tokens the property names; (R5) both producers of ring token lists sort an instance's tokens before the merge unless IsSorted. Also: (R6) the token→instance map shared between a ring and its subrings is immutable (shared with C13.R7); (R7) no selection loop over tokens starts from the extreme value of the domain as 'nothing selected'; (R8) the partition lookup the ranges are measured against returns the id at the position whose active flag it tested (shared with C15.R6); (R9) the instance lookup the ranges are measured against keeps its per-zone counters on separate storage (shared with C01.R7); (R10) the token list and token→partition map of a PartitionRing are computed from the descriptor it stores (shared with C13.R5). NOT decided: the equality 'range contains key ⇔ lookup assigns key' and the tiling themselves (relations between two computations over runtime token values).",
+			"(R2) a pending range end is always closed: on every path (loops unrolled once, flags tracked path-sensitively) from a statement that records a pending bound together with its boolean flag to a successful return, the bound is consumed by an append/addRange. (R3) the k-way merge of token lists never lets an ended sequence beat a live one that holds the end marker 2^32-1 as a real token; (R4) every non-constant +/- on a 32-bit key or token in the lookup and range code is one of the reviewed sites (function + canonical expression, one reason each) and the guarded ones keep their guard — key arithmetic wraps silently exactly at the boundary tokens the property names; (R5) both producers of ring token lists sort an instance's tokens before the merge unless IsSorted. Also: (R6) the token→instance map shared between a ring and its subrings is immutable (shared with C13.R7); (R7) no selection loop over tokens starts from the extreme value of the domain as 'nothing selected'; (R8) the partition lookup the ranges are measured against returns the id at the position whose active flag it tested (shared with C15.R6); (R9) the instance lookup the ranges are measured against keeps its per-zone counters on separate storage (shared with C01.R7); (R10) the token list and token→partition map of a PartitionRing are computed from the descriptor it stores (shared with C13.R5). (R12) a token conflict is detected on the token value alone (shared with C05.R9); (R13) the equality shortcut compares every token (shared with C05.R13); (R14) every successful return of a range builder hands back the slice its token walk filled, never a precomputed answer. NOT decided: the equality 'range contains key ⇔ lookup assigns key' and the tiling themselves (relations between two computations over runtime token values).",
 	}
 }
 
@@ -737,7 +737,6 @@ func c14PartitionTokensSorted(c *core.Ctx, pkg *packages.Package, R string) {
 	}
 	c.Check(n > 0 && len(bad) == 0, R, "func=PartitionRingDesc.tokens:sorted", fn.Pos(), fmt.Sprintf("%d returns, each a slice sorted in this function just before: %v", n, bad), n)
 }
-
 
 // c14OnePath (R14): a range builder answers with the ranges its walk over the tokens produced. Every return whose
 // first result is not nil returns one local slice; that local is created empty (make) and only ever extended by
